@@ -101,11 +101,11 @@ def _eqset(got, want_terms):
 
 
 # --------------------------------------------------------------------- harnesses
-def h_pair(eng, N, fn):
+def h_pair(eng, N, fn, vfix=None):
     """reachable / bi_reachable / connected on (s, d)."""
     E = edges(eng, N)
     g = graph_of(E, N)
-    s = int(eng.fresh_int(0, N, 's'))        # N = a vertex missing from the graph
+    s = int(eng.fresh_int(0, N, 's')) if vfix is None else vfix       # N = a vertex missing from the graph
     d = int(eng.fresh_int(0, N - 1, 'd'))
     got = getattr(gu, fn)(g, s, d)
     if not isinstance(got, bool):
@@ -131,11 +131,11 @@ def h_pair(eng, N, fn):
                lambda: dict(fn=fn, graph=show(E, N), s=s, d=d, got=got))]
 
 
-def h_set(eng, N, fn):
+def h_set(eng, N, fn, vfix=None):
     """find_all_reachable / find_all_bi_reachable / find_all_connected."""
     E = edges(eng, N)
     g = graph_of(E, N)
-    v = int(eng.fresh_int(0, N - 1, 'v'))
+    v = int(eng.fresh_int(0, N - 1, 'v')) if vfix is None else vfix
     got = getattr(gu, fn)(g, v)
     got = set(got)
     R = closure(E, N)
@@ -153,10 +153,10 @@ def h_set(eng, N, fn):
                lambda: dict(fn=fn, graph=show(E, N), v=v, got=sorted(got)))]
 
 
-def h_sources(eng, N):
+def h_sources(eng, N, vfix=None):
     E = edges(eng, N)
     g = graph_of(E, N)
-    v = int(eng.fresh_int(0, N - 1, 'v'))
+    v = int(eng.fresh_int(0, N - 1, 'v')) if vfix is None else vfix
     got = gu.find_sources(g, v)
     R = closure(E, N)
     want = [z3.And(R[u][v], z3.Not(z3.Or(*[T(E[p][u]) for p in range(N)]))) for u in range(N)]
@@ -231,12 +231,12 @@ def h_dfs(eng, N):
                lambda: dict(fn='dfs', graph=show(E, N, N + 1), s=s, got=sorted(got)))]
 
 
-def h_none(eng, N, fn):
+def h_none(eng, N, fn, vfix=None):
     """none_reachable / none_connected: exists a vertex u related to v with u related to
     the NONE node (vertex 0 plays NONE)."""
     E = edges(eng, N)
     g = graph_of(E, N)
-    v = int(eng.fresh_int(0, N - 1, 'v'))
+    v = int(eng.fresh_int(0, N - 1, 'v')) if vfix is None else vfix
     got = getattr(gu, fn)(g, v, none_node=0)
     if fn == 'none_reachable':
         R = closure(E, N)
@@ -289,6 +289,18 @@ def jobs(tier):
                            bounds='all digraphs on %d vertices, every start vertex; result compared with '
                                   'every candidate simple path' % N, outside=OUTSIDE))
         if tier == 'quick':
+            # four vertices from the start vertex 0 (every graph; the other start vertices: thorough tier)
+            b4 = 'all digraphs on 4 vertices, start vertex 0 (other starts: thorough tier)'
+            for fn, f in pair[1:]:
+                out.append(Job('%s-N4-from0' % fn, h_pair, dict(N=4, fn=fn, vfix=0), split_depth=5, functions=[f],
+                               require_events=['%s=True' % fn, '%s=False' % fn], budget_s=900, bounds=b4, outside=OUTSIDE))
+            for fn, f in sets[1:2]:     # the other two are compositions of functions covered on 4 vertices (thorough: all)
+                out.append(Job('%s-N4-from0' % fn, h_set, dict(N=4, fn=fn, vfix=0), split_depth=5, functions=[f],
+                               budget_s=900, bounds=b4, outside=OUTSIDE))
+            out.append(Job('find_sources-N4-from0', h_sources, dict(N=4, vfix=0), split_depth=5, functions=[gu.find_sources],
+                           budget_s=900, bounds=b4, outside=OUTSIDE))
+            out.append(Job('find_all_paths-N4-from0', h_paths, dict(N=4, fn='find_all_paths', vfix=0), split_depth=5,
+                           functions=[gu.find_all_paths], budget_s=900, bounds=b4, outside=OUTSIDE))
             out.append(Job('find_longest_paths-N4-from0', h_paths,
                            dict(N=4, fn='find_longest_paths', vfix=0), split_depth=5,
                            functions=[gu.find_longest_paths], budget_s=900,
